@@ -1,7 +1,10 @@
 /-
-Model of x/twap for ONE (pool, asset pair): record creation, end-of-block record update,
+Model of x/twap.  First part, for ONE (pool, asset pair): record creation, end-of-block record update,
 accumulator interpolation, record lookup, arithmetic / geometric TWAP, pruning, the spot-price
-error-time rule.  (logic.go, api.go, strategy.go, store.go, types/utils.go.)
+error-time rule.  (logic.go, api.go, strategy.go, store.go, types/utils.go.)  Last part (`World`): the module
+state of several pools and pairs — `afterCreatePool`, `updateRecords` (pairs of a pool in most-recent-key
+order, stops at the first rejected pair), `Keeper.EndBlock`'s loop over the changed pools (logs an error and
+continues), pruning pair by pair.  The byte layout of the store keys is in Spec/TwapKeys.lean.
 
 Units (mirroring the code):
 * a `time.Time` is the instant in **nanoseconds** since the Unix epoch (`Int`); the zero `time.Time{}`
@@ -253,5 +256,116 @@ def getTwap (s : Store) (now start end_ : Int) (q0 : Bool) (st : Strategy) : Res
   else
     (getInterpolatedRecord s now start).bind fun a =>
     (getInterpolatedRecord s now end_).bind fun b => computeTwap a b q0 st
+
+/-! ### several pools and pairs: `EndBlock`, `updateRecords`, `afterCreatePool`, pruning over all pairs
+
+The module's state is one `Store` per (pool, denom0, denom1).  The byte layout of the store keys is abstracted
+(the keys are structured); what is kept of it is the ORDER in which `updateRecords` visits the most recent
+records of a pool, because the loop returns at the first rejected pair and what it stored before stays
+(`EndBlock` does not run on a cache context). -/
+
+structure PairKey where
+  pool : Nat
+  d0 : String
+  d1 : String
+  deriving Repr, DecidableEq
+
+/-- association list, at most one entry per key (only `get` / `set` touch it). -/
+abbrev World := List (PairKey × Store)
+
+def World.get : World → PairKey → Option Store
+  | [], _ => none
+  | (k', s) :: rest, k => if k' = k then some s else World.get rest k
+
+def World.set : World → PairKey → Store → World
+  | [], k, s => [(k, s)]
+  | (k', s') :: rest, k, s => if k' = k then (k, s) :: rest else (k', s') :: World.set rest k s
+
+/-- what `getSpotPrices` returned for one pair at the end of the block (an input, as for one pair). -/
+structure PairInput where
+  key : PairKey
+  sp0 : Int
+  sp1 : Int
+  errNow : Bool
+  deriving Repr, DecidableEq
+
+/-- `afterCreatePool`: a new record for every unique pair of the pool's denoms. -/
+def createPairs (w : World) (now height : Int) : List PairInput → World
+  | [] => w
+  | i :: is =>
+    let s := match w.get i.key with
+      | some s => s
+      | none => {}
+    createPairs (w.set i.key (create s now height i.sp0 i.sp1 i.errNow)) now height is
+
+/-- `FormatMostRecentTWAPKey` without its per-pool prefix (`recent_twap|<pool, 20 digits>|`):
+`GetAllMostRecentTwapsForPool` iterates one pool's most recent records in the byte order of this string
+(ASCII denoms: byte order = `String` order).  NB with the separator above every denom character a denom
+sorts AFTER its own extensions here (`"uusdc|x" < "uusd|x"`). -/
+def recentSuffix (k : PairKey) : String := k.d0 ++ Twap.KeySeparator ++ k.d1
+
+def insertByRecentKey (x : PairInput) : List PairInput → List PairInput
+  | [] => [x]
+  | y :: ys => if recentSuffix x.key < recentSuffix y.key then x :: y :: ys else y :: insertByRecentKey x ys
+
+def sortByRecentKey (l : List PairInput) : List PairInput := l.foldr insertByRecentKey []
+
+/-- the loop of `updateRecords`: `some (w', failed)`; `none` = a panic escapes (the block fails). -/
+def updateRecordsLoop (now height : Int) : World → List PairInput → Option (World × Bool)
+  | w, [] => some (w, false)
+  | w, i :: is =>
+    match w.get i.key with
+    | none => some (w, true)
+    | some s =>
+      match update s now height i.sp0 i.sp1 i.errNow with
+      | .ok s' => updateRecordsLoop now height (w.set i.key s') is
+      | .err => some (w, true)
+      | .panic => none
+
+/-- `updateRecords(poolId)`.  `inputs`: one entry per unique pair of the denoms `RouteGetPoolDenoms` reports.
+`GetAllMostRecentRecordsForPoolWithDenoms` fails when the (only) pair of a two-denom pool has no most recent
+record; for more denoms the number of stored most recent records must be `n(n-1)/2`
+(`InvalidRecordCountError`) — both: every pair has its most recent record (`hasRecent`). -/
+def hasRecent (w : World) (k : PairKey) : Bool :=
+  match w.get k with
+  | some s => s.recent.isSome
+  | none => false
+
+def updateRecords (w : World) (now height : Int) (inputs : List PairInput) : Option (World × Bool) :=
+  if inputs.all (fun i => hasRecent w i.key) then
+    updateRecordsLoop now height w (sortByRecentKey inputs)
+  else some (w, true)
+
+/-- one changed pool of a block with the end-of-block prices of its pairs. -/
+structure PoolInput where
+  pool : Nat
+  pairs : List PairInput
+  deriving Repr, DecidableEq
+
+/-- the record half of `Keeper.EndBlock`: the changed pools in the order of the transient store; an error
+of one pool is logged and the loop CONTINUES with the next pool.  `none` = a panic escapes. -/
+def endBlock (now height : Int) : World → List PoolInput → Option World
+  | w, [] => some w
+  | w, p :: ps =>
+    match updateRecords w now height p.pairs with
+    | none => none
+    | some (w', _) => endBlock now height w' ps
+
+/-- the pass on ONE pair (the inner loop of `pruneRecordsBeforeTimeButNewest`: the reverse range scan from
+the pair's prefix up to the key of `lastKept`). -/
+def prunePair (w : World) (k : PairKey) (lastKept : Int) : World :=
+  match w.get k with
+  | some s => w.set k (prune s lastKept)
+  | none => w
+
+/-- a completed pruning pass (`pruneRecordsBeforeTimeButNewest` over every pool and pair): every pair's
+index is pruned on its own range. -/
+def pruneWorld (w : World) (lastKept : Int) : World := w.map fun p => (p.1, prune p.2 lastKept)
+
+/-- a query on one pair; a pair without records answers with an error. -/
+def getTwapW (w : World) (k : PairKey) (now start end_ : Int) (q0 : Bool) (st : Strategy) : Res (Int × Bool) :=
+  match w.get k with
+  | none => .err
+  | some s => getTwap s now start end_ q0 st
 
 end OsmoVerif.Twap
